@@ -59,6 +59,36 @@ theorem run_inv (c : BConn) (ops : List COp) :
     | write p l => simp [BConn.run, payloads, ih, write_inv, List.append_assoc]
     | flush => simp [BConn.run, payloads, ih, flush_inv]
 
+/-! ### every write path a probing caller can reach -/
+
+theorem vpayloads_vplain (ops : List VOp) : payloads (vplain ops) = vpayloads ops := by
+  induction ops with
+  | nil => rfl
+  | cons o r ih => cases o <;> simp [vplain, payloads, vpayloads, ih]
+
+/-- when the type has none of the probed methods, every hand-over is a `Write` -/
+theorem runVia_plain (methods : List String) (hm : ∀ v : Via, v = .write ∨ methods.contains v.method = false)
+    (c : BConn) (ops : List VOp) : c.runVia methods ops = some (c.run (vplain ops)) := by
+  induction ops generalizing c with
+  | nil => rfl
+  | cons o r ih =>
+    cases o with
+    | write v p l =>
+      have hv : c.writeVia methods v p l = some (c.write p l) := by
+        unfold BConn.writeVia
+        rcases hm v with h | h
+        · simp [h]
+        · have h' : ¬ v.method ∈ methods := by simpa using h
+          simp [h']
+      simp [BConn.runVia, hv, vplain, BConn.run, ih]
+    | flush => simp [BConn.runVia, vplain, BConn.run, ih]
+
+/-- a probe that finds its method leaves the model: the run is not described -/
+theorem runVia_unmodelled (methods : List String) (v : Via) (hv : v ≠ .write) (hm : methods.contains v.method = true)
+    (c : BConn) (p : Bytes) (l : Bool) (r : List VOp) : c.runVia methods (.write v p l :: r) = none := by
+  have hm' : v.method ∈ methods := by simpa using hm
+  simp [BConn.runVia, BConn.writeVia, hv, hm']
+
 theorem flush_empties (c : BConn) : c.flush.buf = [] := by
   unfold BConn.flush
   split
